@@ -235,7 +235,7 @@ package memfs
 //@   loop 0 invariant fresh(pi) && pi.vfs == vfs
 //@   loop 0 invariant pi.end >= pi.volumeNameLen && 0 <= pi.volumeNameLen && pi.volumeNameLen <= 281474976710656
 //@   loop 0 invariant pi.end <= 281474976710657
-//@   loop 0 invariant 0 <= slCount && slCount <= slCountMax
+//@   loop 0 invariant[C04,C07] 0 <= slCount && slCount <= slCountMax
 //@   modifies nothing
 
 //@ func (*dirNode).addChild
